@@ -4,6 +4,8 @@ EXTENDS Limits, Json
 
 VersionsQuick == {"1", "3", "6", "10", "11", "12", "org.matrix.msc4014"}
 VersionsAll == AllVersions
+VersionsCtor == {"1", "10", "12"}                              \* one version per untrusted constructor (V1, V2, V3)
+VersionsPairQuick == {"1", "10", "12", "org.matrix.msc4014"}
 
 VClass(v) == IF DomainlessRoomIDs(v) THEN "domainless" ELSE IF PseudoIDs(v) THEN "pseudoid" ELSE "plain"
 Cls(x) == IF x > 255 THEN ">255" ELSE "<=255"
